@@ -165,8 +165,20 @@ def run_seq_history(LRUCache, cap, hist, full_prefix_check=False):
     """Returns None or a description of the first divergence."""
     c = LRUCache(cap)
     m = Model(cap)
+    mid = (len(hist) - 1) // 2
+    held = None
     for i, (op, k) in enumerate(hist):
         v = f"v{i}"
+        if i == mid + 1 and len(hist) >= 2:
+            # iterators obtained now and consumed after the remaining operations
+            # (`for k in cache: cache[k]`): consuming them never raises, and when nothing
+            # changes membership or order in between they yield what they would have yielded
+            try:
+                it, rit = iter(c), reversed(c)
+                first = next(it, None)
+            except Exception as e:
+                return f"iterator creation raised {type(e).__name__}: {e}"
+            held = (it, rit, first, model_observers(m)["iter"])
         if op == "copy":
             c2 = c.copy() if i % 2 == 0 else copy.copy(c)
             if observers(c2) != observers(c):
@@ -193,6 +205,16 @@ def run_seq_history(LRUCache, cap, hist, full_prefix_check=False):
             return f"step {i}: len {len(c)} exceeds capacity {cap}"
         if full_prefix_check and observers(c) != model_observers(m):
             return f"step {i}: observers {observers(c)} != model {model_observers(m)}"
+    if held is not None:
+        it, rit, first, snap = held
+        try:
+            fwd = ([] if first is None else [first]) + list(it)
+            bwd = list(rit)
+        except Exception as e:
+            return (f"held-iterator consumed after {hist[mid + 1:]} raised {type(e).__name__}: {e} "
+                    f"(history {hist})")
+        if all(o in ("contains",) for o, _ in hist[mid + 1:]) and (fwd != snap or bwd != snap[::-1]):
+            return f"held-iterator yields {fwd}/{bwd}, keys at creation were {snap} (history {hist})"
     try:
         o = observers(c)
     except Exception as e:
